@@ -4,6 +4,15 @@ import json, os, sys
 HERE = os.path.dirname(os.path.dirname(os.path.abspath(__file__)))
 
 CHECKS = {
+ "C01": dict(
+   technique="differential execution: independent C11 reference evaluator vs RzIL interpreter on Hypothesis-generated machine states",
+   text="Every accepted corpus part (thorough: all 2181 definitions, 120 states each; quick: ~230 stratified by seed, 20 states) and a caller "
+        "per bundled sub-routine is executed twice - C text by an independent evaluator, emitted text by an RzIL interpreter - and the "
+        "final register/memory/jump/cancel state compared; accepted parts containing constructs the dialect does not translate are flagged. "
+        "Exploration, not proof: states are sampled (boundary-biased), branch coverage per part is reported.",
+   note="Trusted: machine model of the plugin macros (DESIGN.md section 4), reference evaluator vlib/cref, reader/interpreter vlib/il. "
+        "Float/HVX parts and C-undefined executions are discarded and counted.",
+   design="7/C01"),
  "C04": dict(
    technique="exhaustive enumeration + Hypothesis pairs against a reference common-type function",
    text="All ordered (signed,width) pairs over the producible widths (quick) / all 4096x4096 pairs (thorough) are "
